@@ -273,11 +273,20 @@ fn dump_const<'tcx>(tcx: TyCtxt<'tcx>, did: DefId) -> Option<J> {
             }
         }
     }
+    let mut sval = J::Null;
+    if ty.is_ref() && ty.peel_refs().is_str() {
+        if let Ok(cv) = tcx.const_eval_poly(did) {
+            if let Some(bytes) = cv.try_get_slice_bytes_for_diagnostics(tcx) {
+                sval = J::s(&String::from_utf8_lossy(bytes));
+            }
+        }
+    }
     Some(J::obj(vec![
         ("id", J::s(&uid(tcx, did))),
         ("path", J::s(&tcx.def_path_str(did))),
         ("ty", J::s(&ty.to_string())),
         ("val", val),
+        ("str", sval),
     ]))
 }
 
